@@ -125,15 +125,16 @@ package xpush
 //@   before select#1 assert selsends(s.sendQ)
 //@
 // ---- end generated current-queue contracts ----
+//@
+//@ func (*socket).RemovePipe
+//@   before call:Unlock#1 assert p.closed
 // ---- generated AddPipe contracts (tools/gen_addpipe_contracts.py) ----
 //@ func (*socket).AddPipe
 //@   ghost wasClosed = s.closed at call:Lock#1
 //@   ensures wasClosed ==> result == protocol.ErrClosed && !spawned("receiver") && !spawned("sender")
 //@   ensures !wasClosed && isnil(result) ==> spawned("receiver") && has(s.pipes, pp.ID())
 //@   ensures !wasClosed ==> isnil(result)
+//@   before go:receiver#1 assert fresh(p.sendQ) && fresh(p.closeQ)
 //@   before call:SetPrivate#1 assert p.p == pp && p.s == s
 //@
 // ---- end generated AddPipe contracts ----
-//@
-//@ func (*socket).RemovePipe
-//@   before call:Unlock#1 assert p.closed
